@@ -19,20 +19,22 @@ import (
 
 type c09Params struct {
 	name    string
-	layout  string   // coloc (2 regions on one server), spread (2 servers), three (3 regions on 2 servers)
+	layout  string     // coloc (2 regions on one server), spread (2 servers), three (3 regions on 2 servers)
 	callers [][]string // per caller: keys requested in sequence
-	warm    []string // keys requested before the concurrent phase
+	warm    []string   // keys requested before the concurrent phase
 	event   string
-	evAfter int  // the event fires after that many server-side attempts (-1: immediately)
+	evAfter int    // the event fires after that many server-side attempts (-1: immediately)
 	hold    string // key whose answer is held until the event
+	evStep  int    // != 0: the event interrupts at this scheduling step (-1: never, probe run)
 }
 
 type c09Obs struct {
-	errs     [][]error
-	w        *world
-	unavail  []string
-	lingering []string
-	stats    string
+	errs               [][]error
+	w                  *world
+	unavail            []string
+	lingering          []string
+	stats              string
+	startStep, endStep int
 }
 
 func c09Cluster(layout string) *sim.Cluster {
@@ -107,8 +109,19 @@ func c09Body(p c09Params, out *c09Obs) func() {
 		n := len(p.callers)
 		out.errs = make([][]error, n)
 		fin := make(chan int, n+1)
+		out.startStep = vrt.Steps()
 		vrt.GoNamed("h:events", func() {
-			if p.evAfter >= 0 {
+			if p.evStep != 0 {
+				late := false
+				tm := vrt.AfterFunc(time.Hour, func() { late = true })
+				vrt.AwaitFirst("h:event-at-step", func() bool { return late || (p.evStep > 0 && vrt.Steps() >= p.evStep) })
+				tm.Stop()
+				if p.evStep < 0 {
+					w.releaseHolds()
+					vrt.Send(fin, -1)
+					return
+				}
+			} else if p.evAfter >= 0 {
 				late := false
 				tm := vrt.AfterFunc(time.Hour, func() { late = true })
 				vrt.Await("h:event-trigger", func() bool { return late || len(cl.Attempts)-base >= p.evAfter })
@@ -129,6 +142,7 @@ func c09Body(p c09Params, out *c09Obs) func() {
 					}
 					out.errs[i] = append(out.errs[i], err)
 				}
+				out.endStep = vrt.Steps()
 				vrt.Send(fin, i)
 			})
 		}
@@ -189,7 +203,7 @@ func c09Check(p c09Params, out *c09Obs) func(res *vrt.Result) *explore.Finding {
 func c09Units(thorough bool) []*explore.Unit {
 	var units []*explore.Unit
 	add := func(p c09Params, bound int) {
-		p.name = fmt.Sprintf("%s|callers=%v|warm=%v|event=%s@%d|hold=%s", p.layout, p.callers, p.warm, p.event, p.evAfter, p.hold)
+		p.name = fmt.Sprintf("%s|callers=%v|warm=%v|event=%s@%d|hold=%s%s", p.layout, p.callers, p.warm, p.event, p.evAfter, p.hold, stepSuffix(p.evStep))
 		out := &c09Obs{}
 		units = append(units, &explore.Unit{Name: p.name, Bound: bound, Opt: vrt.Options{MaxSteps: 80000},
 			Body: c09Body(p, out), Check: c09Check(p, out),
@@ -224,6 +238,37 @@ func c09Units(thorough bool) []*explore.Unit {
 			}
 		}
 		add(c09Params{layout: layout, callers: [][]string{{"a"}, {"x"}, {"a"}}, event: "connreset", evAfter: 1, hold: "a", warm: []string{"a"}}, 1)
+		// every event at every scheduling step of a cold burst (two callers) and of two
+		// callers with region A known (vrt.AwaitFirst: the position is a unit parameter)
+		for _, base := range []c09Params{{layout: layout, callers: two, evAfter: -1}, {layout: layout, callers: same, evAfter: -1}, {layout: layout, callers: two, warm: []string{"a"}, evAfter: -1}} {
+			probe := base
+			probe.evStep, probe.event = -1, "move"
+			po := &c09Obs{}
+			vrt.Tracing = true
+			res, _ := explore.RunOnce(&explore.Unit{Opt: vrt.Options{MaxSteps: 80000}, Body: c09Body(probe, po)}, nil)
+			vrt.Tracing = false
+			nk := 0
+			for i, line := range res.Trace {
+				k := res.TraceSteps[i]
+				name := strings.SplitN(line, " ", 2)[0]
+				if k <= po.startStep || harnessThread(name) && !strings.Contains(name, ":h:caller") {
+					continue
+				}
+				if k > po.endStep || nk >= 200 {
+					break
+				}
+				nk++
+				for _, ev := range events {
+					p := base
+					p.event, p.evStep = ev, k
+					b := 1
+					if thorough {
+						b = 2
+					}
+					add(p, b)
+				}
+			}
+		}
 		if thorough {
 			for _, ev := range events {
 				add(c09Params{layout: layout, callers: [][]string{{"a"}, {"x"}, {"b"}}, event: ev, evAfter: -1}, 2)
@@ -294,9 +339,9 @@ func c09Race() []RaceBody {
 func init() {
 	register(&Prop{
 		Race: c09Race,
-		ID: "C09", Level: "model_checking",
-		Technique: "stateless model checking of the real top-level client (availability channels, establishers, connection cache) over a simulated cluster: concurrent callers x faults x fault positions x all schedules up to a deviation bound; plus a separate free-running -race pass of the same bodies (sampling, reported as such)",
-		Rule: "units = layout {two regions on one shared connection, on two servers, three regions on two servers} x 2-3 concurrent callers (distinct / same / crossing keys) x fault {connection reset, crash with reassignment, NSRE bursts on one region or the whole table, split, split with the daughter still opening, merge, server-stopped exception, move} x {cold burst, warm cache with one request held in flight and the fault fired after the k-th server-side attempt, k=0..3}; every schedule with <=2 deviations for cold bursts, <=1 for positioned faults (thorough: 2-3). Oracle: no panic in any thread (a double release is 'close of nil channel'), every request returns successfully, and once the cluster is stable no cached region is marked unavailable and no client thread is still running. Non-trivial = at least one non-default scheduling choice.",
+		ID:   "C09", Level: "model_checking",
+		Technique:   "stateless model checking of the real top-level client (availability channels, establishers, connection cache) over a simulated cluster: concurrent callers x faults x fault positions x all schedules up to a deviation bound; plus a separate free-running -race pass of the same bodies (sampling, reported as such)",
+		Rule:        "units = layout {two regions on one shared connection, on two servers, three regions on two servers} x 2-3 concurrent callers (distinct / same / crossing keys) x fault {connection reset, crash with reassignment, NSRE bursts on one region or the whole table, split, split with the daughter still opening, merge, server-stopped exception, move} x {cold burst, warm cache with one request held in flight and the fault fired after the k-th server-side attempt, k=0..3}; every schedule with <=2 deviations for cold bursts, <=1 for positioned faults (thorough: 2-3). Oracle: no panic in any thread (a double release is 'close of nil channel'), every request returns successfully, and once the cluster is stable no cached region is marked unavailable and no client thread is still running. Non-trivial = at least one non-default scheduling choice. Additionally every event fires at EVERY scheduling step of a cold burst of two callers (different regions / the same key) and of two callers with one region known, in all three layouts (vrt.AwaitFirst: the event's thread becomes the default choice at that step, so its position is a parameter of the unit and costs no deviation), with <=1 (thorough 2) further deviations.",
 		Assumptions: []string{"tier L (simulated region clients)", "the data-race clause is covered only by the free-running -race pass (sampling)"},
 		Quick:       150 * time.Second, Thorough: 30 * time.Minute,
 		Units: c09Units,
